@@ -271,12 +271,14 @@ func (o origin) key() string { return o.Scheme + "://" + o.Host + ":" + o.Port }
 var origins = []origin{
 	{"https", "a.example", ""}, {"https", "b.example", ""}, {"https", "a.example", "8443"}, {"https", "b.example", "8443"},
 	{"http", "a.example", ""}, {"http", "b.example", ""}, {"http", "a.example", "8443"}, {"http", "b.example", "8443"},
+	// an http URL that spells out its default port: the Host the server sees keeps the ":80"
+	{"http", "a.example", "80"},
 	// IPv6-literal origins (used by a dedicated family only): the textual forms "[fd00::443]:8443" and "[fd00::]:8443" must not
 	// be confused with one another, nor with "[fd00::]:443"
 	{"https", "[fd00::443]", "8443"}, {"https", "[fd00::]", "8443"}, {"https", "[fd00::]", ""}, {"https", "[fd00::8443]", ""},
 }
 
-const firstLiteralOrigin = 8
+const firstLiteralOrigin = 9
 
 func (o origin) literal() string {
 	if strings.HasPrefix(o.Host, "[") {
@@ -446,6 +448,9 @@ func runHistory(hc histCase, host string) (key, what string) {
 		okey := o.key()
 		if o.Scheme == "http" && hc.Zone != 0 {
 			okey = origin{"https", o.Host, o.Port}.key()
+			if o.Port == "80" {
+				okey = origin{"https", o.Host, ""}.key() // http on its default port upgrades to https on ITS default port
+			}
 		}
 		req.Header.Set("X-Origin", okey)
 		wantHost := o.Host
@@ -518,10 +523,13 @@ func runHistory(hc histCase, host string) (key, what string) {
 				return "dial-server-name", fmt.Sprintf("%s: DialFunc got ServerName %q, want %q", tag, parts[1], o.Host)
 			}
 			wantPort := o.Port
-			if wantPort == "" {
+			if wantPort == "" || wantPort == "80" && o.Scheme == "http" {
 				wantPort = "443"
 			}
-			if _, p, _ := net.SplitHostPort(parts[0]); p != wantPort {
+			if o.Port == "80" && hc.Zone == 3 {
+				wantPort = "" // no usable record: which port the fallback uses for an explicit :80 is not settled by the property
+			}
+			if _, p, _ := net.SplitHostPort(parts[0]); wantPort != "" && p != wantPort {
 				return "dial-port", fmt.Sprintf("%s: dialed %s, want port %s", tag, parts[0], wantPort)
 			}
 			wantIP := "192.0.2.1"
